@@ -79,6 +79,9 @@ mod searcher;
 mod strict_partial_ord;
 mod types;
 
+#[cfg(cloudflare_wirefilter_verif)]
+pub mod verif_hooks;
+
 pub use self::ast::field_expr::{
     ComparisonExpr, ComparisonOpExpr, IdentifierExpr, IntOp, OrderingOp,
 };
